@@ -14,6 +14,22 @@ CLAIMED = {
 CLAIMED['C14'] = dict(design='8/C14', technique='deductive verification: safety-only contracts (requires true), every panic site an obligation over symbolic inputs of symbolic length, loop invariants and variants as contracts; z3/cvc5',
    text='Proof that none of the 45 listed conversion helpers can panic (index, slice bounds, nil dereference, division, make, library preconditions) or loop forever for any byte string or text input: thin contracts with requires true (plus Len == len(Buffer) where a decoded element struct is taken), loop invariants and variants discharged for all lengths.',
    note='Trusted models of hex, strconv, strings, fmt.Sprintf, bytes.Buffer/Reader, binary.Read, time, logrus (DESIGN section 5). Slices of composite elements have unknown content (only their length is tracked). Non-nil receiver / pointer-to-struct parameters are assumed where the byte string is a field of a struct.')
+TB_CODEC = 'Trusted models of bytes.Buffer and encoding/binary (DESIGN section 5); oracle spec/messages.json (extracted from the pinned tree, corrected and cross-checked against upstream\'s 88 spec-derived samples on every run); go/ssa lowering and SMT solvers trusted.'
+CLAIMED['C01'] = dict(design='8/C01', technique='deductive verification: safety obligations at every panic site of the decoders under requires true on the bytes, loop variant, allocation ghost with linear invariant; z3/cvc5',
+   text='Proof that the 45 generated decoders and the three decode entry points never panic, always terminate (variant buffer.Len()) and allocate at most 128*len(input) + 2*65535 + 640 octets, for every byte string of every length; entry points use the decoders through their contracts.',
+   note='Allocation is counted by a ghost at make/new/append/binary.Read scratch (CPU work is not counted separately: each loop iteration consumes at least one octet and does work linear in the octets it consumes). ' + TB_CODEC)
+CLAIMED['C04'] = dict(design='8/C04', technique='deductive verification: table-derived functional contracts; encoder proved by per-element cut points, decoder by a two-state loop-step relation against the table-driven step; z3/cvc5',
+   text='Proof that each of the 45 encoders appends exactly ENC_T(a) and each of the 45 decoders equals the table-driven decoder DEC_T (mandatory part and one step of the optional-part loop from an arbitrary state: dispatch incl. half-octet rule, bounds accepted/rejected exactly, truncation is an error, last duplicate wins, unknown identifier skips one octet), for all inputs.',
+   note=TB_CODEC)
+CLAIMED['C02'] = dict(design='8/C02', technique='deductive verification: C04 codec contracts on the real code plus machine-checked per-row round-trip lemmas and table side conditions; induction over rows on paper; z3/cvc5',
+   text='Encode-then-decode identity for all well-formed messages: real encoders == ENC_T, real decoders == DEC_T (obligations re-run), and for each of the 357 element slots DEC_T applied to the encoding of a well-formed element returns it and consumes exactly its octets; identifiers pairwise distinct per message.',
+   note='Induction over the table rows is a paper step. ' + TB_CODEC)
+CLAIMED['C03'] = dict(design='8/C03', technique='deductive verification: decoder postcondition establishes well-formedness, then the C02 lemma; equational steps on paper; z3/cvc5',
+   text='A decoded message is well-formed (received identifier, length within bounds, storage of exactly that length), so re-encoding succeeds, decodes to the same message and is a fixed point; canonical input re-encodes byte-exactly. Rests on the per-function codec obligations and per-row lemmas, re-run on every check.',
+   note='Equational reasoning from the obligations to the fixed-point statement is on paper; decoding starts from a fresh message struct. ' + TB_CODEC)
+CLAIMED['C10'] = dict(design='8/C10', technique='deductive verification: frame and freshness (provenance) obligations on the real codecs; z3/cvc5 plus object-identity checks of the symbolic heap',
+   text='Decoders never write the input and store only freshly allocated memory (no aliasing with the input or pre-existing storage); encoders modify only the buffer and only append, for every pre-existing buffer content; both are given as functions of their arguments (determinism).',
+   note='bytes.Buffer growth is modelled as reallocation. ' + TB_CODEC)
 REASONS = {}
 checks = []
 for p in props:
